@@ -26,7 +26,7 @@ def gen_case(seed, k, cap):
     rng.shuffle(ts)
     # half of the Copy types carry no custom clone method anywhere: clone has to be the bitwise copy then, in every bound mode
     avoid = {"copy_enum_method"} if copy and rng.random() < 0.5 else set()
-    td = G.random_type(rng, ts, G.Opts(p_attr=0.9, max_fields=4, max_variants=4, p_partial=0.3, p_repr=0.3, avoid=avoid))
+    td = G.random_type(rng, ts, G.Opts(p_attr=0.9, max_fields=4, max_variants=4, p_partial=0.3, p_repr=0.3, avoid=avoid, p_packed=0.5))
     if avoid and not td.params and rng.random() < 0.5:
         td.tsem.setdefault("Clone", {})["bound"] = rng.choice([("none",), ("none",), ("all",)])
     text = S.render(td, rng_for(seed, PROP, "spell", k), extras=False)
